@@ -836,7 +836,9 @@ func (d *DotGit) ObjectsWithPrefix(prefix []byte) ([]plumbing.Hash, error) {
 				return bytes.Compare(d.objectList[i].Bytes(), limPrefix) >= 0
 			})
 		}
-		return d.objectList[first:lim], nil
+		// Return a copy: callers append to the result, which must not
+		// overwrite the cached list.
+		return slices.Clone(d.objectList[first:lim]), nil
 	}
 
 	// This is the slow path.
